@@ -196,7 +196,7 @@ def trees(tier, seed):
                 (["bin", op, ["bin", "+", A, B], NULL], "null"), (["bin", op, A, ["bin", "??", NULL, NULL]], "null"),
                 (["bin", op, A, ["case", [[["lit", False], B]]]], "fold"), (["not", ["bin", op, A, NULL]], "null")]
     for op in gexpr.ARITH + gexpr.CMP + ["&&", "||", "??"]:
-        out += [(["bin", op, ["lit", 7], ["lit", 2]], "fold"), (["bin", op, ["lit", -7], ["lit", 2]], "fold"), (["bin", op, ["lit", 7], ["lit", 2.0]], "fold"),
+        out += [(["bin", op, ["lit", 7], ["lit", 2]], "fold"), (["bin", op, ["neg", ["lit", 7]], ["lit", 2]], "fold"), (["bin", op, ["lit", 7], ["lit", 2.0]], "fold"),
                 (["bin", op, A, ["bin", op, ["lit", 3], ["lit", 2]]], "fold"), (["bin", op, ["bin", op, ["lit", 3], ["lit", 2]], A], "fold"),
                 (["bin", op, ["lit", 0], A], "fold"), (["bin", op, A, ["lit", 0]], "fold"), (["bin", op, ["lit", 1], A], "fold"), (["bin", op, A, ["lit", 1]], "fold"),
                 (["bin", op, NULL, A], "fold"), (["bin", op, A, NULL], "fold"), (["bin", op, ["lit", True], A], "fold"), (["bin", op, A, ["lit", False]], "fold")]
@@ -207,7 +207,7 @@ def trees(tier, seed):
             (["bin", "+", ["case", [[["bin", ">", A, B], A], [["lit", True], B]]], ["lit", 1]], "case"),
             (["neg", ["neg", A]], "unary"), (["not", ["not", A]], "unary"), (["neg", ["lit", 2]], "unary"), (["bin", "-", A, ["neg", B]], "unary"),
             (["bin", "**", ["neg", ["lit", 2]], ["lit", 2]], "unary"), (["neg", ["bin", "**", ["lit", 2], ["lit", 2]]], "unary")]
-    n = 500 if tier == "quick" else 25000
+    n = 6000 if tier == "quick" else 60000
     for _ in range(n):
         out.append((gexpr.random_tree(rng, rng.randint(2, 4)), "random"))
     if tier != "quick":
